@@ -707,7 +707,13 @@ fn judge(run: &Run, c: &Case) -> CaseResult {
 fn judge_live(run: &Run, c: &Case, live: &Live) -> CaseResult {
     let base = live.dir.join(&c.base);
     let res_root = c.res_root.as_ref().map(|r| live.dir.join(r));
-    let root_real = std::fs::canonicalize(live.dir.join("root")).map_err(|e| Fail::new("C29:harness", format!("{e}")))?;
+    let root_real = match std::fs::canonicalize(live.dir.join("root")) {
+        Ok(r) => r,
+        Err(e) => {
+            run.inconclusive(format!("case root cannot be canonicalised: {e}"));
+            return Ok(());
+        }
+    };
     let id = live.subst(&c.id);
     let op = c.op.as_str();
     run.count(&format!("op:{op}"));
